@@ -54,6 +54,8 @@ def gen_finite_type(H: Chooser, refs, level=0):
         return ["bool"]
     if k == "int":
         r = gen_refinement(H, "int", {}, finite=True)
+        if H.draw(4) == 0:
+            r = ["Flaky", r]  # never fails in a judged creation; fails on a seeded plan in the unjudged ones in between (history)
         return ["ann", ["int"], r]
     if k == "str":
         n = 1 + H.draw(3)
@@ -143,6 +145,8 @@ class Lang:
                         break
         elif k == "ann":
             rr = t[2]
+            if rr[0] == "Flaky":
+                rr = rr[1]
             if rr[0] == "IntRange":
                 r = rr[2] - rr[1] + 1
             elif rr[0] in ("IntList", "VarRange", "FloatList"):
@@ -277,6 +281,8 @@ def walk(ref: Ref, lang: Lang, b, v, t, k, d, mode, out, hints):
         return
     if kind == "ann":
         r = t[2]
+        if r[0] == "Flaky":
+            r = r[1]
         if r[0] == "IntRange":
             out.append(("randint", (r[1], r[2]), v, ("IntRange",)))
         elif r[0] in ("IntList", "VarRange", "FloatList"):
@@ -387,7 +393,11 @@ def run(ctx):
     from geneticengine.representations.tree import initializations as I
     from geneticengine.representations.tree.treebased import TreeBasedRepresentation
 
+    from ..flaky import Flaky
+
     H = ctx.H
+    Flaky.plan = None
+    has_history = H.draw(2) == 1
     install_set_order()
     set_order_seed(ctx.S.draw(2**16))
     mode = H.weighted([("grow", 5), ("full", 3), ("pigrow", 2)])
@@ -496,6 +506,26 @@ def run(ctx):
 
             dec.choose_production_alternatives = hinted
             rep = TreeBasedRepresentation(g, dec)
+            # F13 (history), unjudged: what other users of the same grammar / representation object do in between --
+            # (1) a creation with an explicit per-call decider (every initializer passes one), (2) a creation during which
+            # refined fields fail on a seeded plan, so that create_node backtracks over the grammar's production lists
+            disturb = H.draw(8) if has_history else 0
+            if disturb in (1, 2):
+                rnd0 = SimRandom(ctx, "uniform", log=False)
+                ctx.faults["carry_over"] += 1
+                try:
+                    if disturb == 1:
+                        ctx.stat("history:per-call-decider")
+                        rep.create_genotype(rnd0, decider=I.MaxDepthDecider(rnd0, g, d + 2 + H.draw(2)))
+                    else:
+                        ctx.stat("history:backtracking-creation")
+                        Flaky.plan = lambda: ctx.S.draw(2) == 1
+                        ctx.faults["synthesis_exception"] += 1
+                        TreeBasedRepresentation(g, I.MaxDepthDecider(rnd0, g, d + H.draw(2))).create_genotype(rnd0)
+                except Exception:
+                    pass  # unjudged
+                finally:
+                    Flaky.plan = None
             try:
                 p = rep.create_genotype(rnd)
             except lib_errors as e:
